@@ -13,7 +13,11 @@ RULE = ("streams: proto = protocol-abiding initiator (transfers held ratio+2 cyc
         "stb-only idles, every input random outside transfers), random = every input bit random each cycle, "
         "sticky = random with held values, exh = every (select mask, we) transfer of the geometry (sampled for "
         "ratio 8 in quick) plus every (cyc,stb)^3 continuation from every sequencer state, ctor = constructor "
-        "arguments incl. refused ones.  Non-trivial: constructor accepted, >= 3 completed protocol-abiding "
+        "arguments incl. refused ones.  About 30 % of the accepted cases assert the synchronous reset in 1-3 cycles: "
+        "in protocol-abiding streams mostly inside a transfer (every offset, the cycle whose edge would register the "
+        "acknowledge over-weighted), after which the initiator either re-issues the same request at once (request held "
+        "through the reset) or drops it; in the other streams mostly while the sequencer is away from idle, half of the "
+        "time with the inputs held.  Non-trivial: constructor accepted, >= 3 completed protocol-abiding "
         "transfers incl. a read and a write with a non-zero select mask.")
 LEGAL = (8, 16, 32, 64)
 
@@ -192,7 +196,91 @@ def gen_exh(rnd, g, cfg, tier):
     return stim
 
 
+def gen_resets_proto(rr, g, cfg, stim, limit):
+    """stim[:limit] is protocol-abiding.  1-3 reset cycles, 3 out of 4 inside a complete transfer of that prefix
+    (offset 0..ratio+1 from its start; offset ratio is the cycle whose clock edge would register the
+    acknowledge, offset ratio+1 the acknowledge cycle), the others in idle cycles.  A transfer cut by a reset
+    is never acknowledged; what the initiator does next is either the same request again, from the cycle after
+    the reset (held through the reset, a complete new transfer), or nothing (it was reset too).  Either way
+    the rest of the interrupted transfer is replaced, so that the stream stays protocol-abiding."""
+    r_, ratio, wb_aw, wdw = g
+    xf = [t0 for t0 in transfers({"stim": stim[:limit]}, g)[0] if t0 + ratio + 1 < limit - 1]
+    busy = set()
+    for t0 in xf:
+        busy.update(range(t0, t0 + ratio + 2))
+    idle = [t for t in range(1, limit - 1) if t not in busy]
+    picks = {}
+    for _ in range(rr.choice([1, 1, 2, 3])):
+        if xf and rr.random() < 0.75:
+            t0 = rr.choice(xf)
+            if any(p[0] == t0 for p in picks.values()):
+                continue
+            k = rr.choice(list(range(ratio + 2)) + [ratio, ratio, max(0, ratio - 1)])
+            picks[t0 + k] = (t0, k)
+        elif idle:
+            picks[rr.choice(idle)] = (None, None)
+    deltas = []
+    for pos in sorted(picks, reverse=True):
+        t0, k = picks[pos]
+        delta = 0
+        if t0 is not None and k <= ratio:
+            x = stim[t0]
+            if rr.random() < 0.65:
+                new = transfer_rows(rr, g, cfg, x[2], x[3], x[4], x[5], rr.choice(["hold", "hold", "drop", "any"]))
+            else:
+                new = idle_rows(rr, g, cfg, rr.choice([0, 1, 2]))
+            old = t0 + ratio + 1 - pos
+            stim[pos + 1:t0 + ratio + 2] = new
+            delta = len(new) - old
+        deltas.append((pos, delta))
+    return [pos + sum(d for q, d in deltas if q < pos) for pos in sorted(picks)]
+
+
+def gen_resets_free(rr, g, cfg, stim):
+    """Streams that follow no protocol: 1-3 reset cycles, 7 out of 10 while the sequencer is away from idle
+    (by the generator's reference stepping of the stream without resets), half of the time with every input of
+    the reset cycle held for one more cycle (a row is inserted)."""
+    T = len(stim)
+    st = (0, 0); away = []
+    for t, x in enumerate(stim):
+        if 3 <= t < T - 3 and (st[0] > 0 or st[1]):
+            away.append(t)
+        st = ref_step(g, st, x)
+    picks = set()
+    for _ in range(rr.choice([1, 1, 2, 3])):
+        picks.add(rr.choice(away if away and rr.random() < 0.7 else list(range(3, T - 3))))
+    out, shift = [], 0
+    for r in sorted(picks):
+        r += shift
+        out.append(r)
+        if rr.random() < 0.5:
+            stim.insert(r + 1, list(stim[r]))
+            shift += 1
+    return out
+
+
 def gen_case(seed, tier, idx):
+    case = gen_case_noreset(seed, tier, idx)
+    g = geometry(case["cfg"])
+    # mid-run synchronous resets come from a random stream of their own: the cases without one are exactly
+    # those generated before resets existed
+    rr = mkrnd(seed, "bridge-reset", idx)
+    if g is not None and len(case["stim"]) > 20 and rr.random() < 0.3:
+        stim = case["stim"]
+        if case["kind"] in ("random", "sticky"):
+            rs = gen_resets_free(rr, g, case["cfg"], stim)
+        else:
+            # proto / ctor: the whole stream; exh: the protocol-abiding first part (one transfer per
+            # (select mask, we) pair -- a transfer cut by a reset is issued again or dropped), the
+            # continuation part keeps starting from the sequencer states it was steered to
+            stop = transfers({"stim": stim}, g)[1]
+            rs = gen_resets_proto(rr, g, case["cfg"], stim, len(stim) if stop is None else stop)
+        if rs:
+            case["resets"] = rs
+    return case
+
+
+def gen_case_noreset(seed, tier, idx):
     rnd = mkrnd(seed, "bridge", idx)
     kind = ["proto", "random", "proto", "sticky", "proto", "exh", "proto", "ctor"][idx % 8]
     T = 300 if tier == "quick" else 500
@@ -234,6 +322,40 @@ def to_model(case):
     return [[cfg["caw"], cfg["cdw"], [] if cfg["dw"] is None else [cfg["dw"]]], case["stim"]]
 
 
+def _segments(case):
+    """[(first, last)] cycle ranges; a segment ends with the cycle in which the reset is asserted (a reset in the
+    very last cycle has no observable consequence and is not applied)"""
+    rs = sorted(set(r for r in case.get("resets", []) if 0 <= r < len(case["stim"]) - 1))
+    out, a = [], 0
+    for r in rs:
+        out.append((a, r)); a = r + 1
+    out.append((a, len(case["stim"]) - 1))
+    return out
+
+
+def _reset_cycles(case):
+    return [b for (a, b) in _segments(case)[:-1]] if case["stim"] else []
+
+
+def model_cases(case):
+    """A mid-run synchronous reset starts the model again from its initial state: one model run per segment."""
+    if not case["stim"]:
+        return [to_model(case)]
+    head = to_model(case)[0]
+    return [[head, case["stim"][a:b + 1]] for (a, b) in _segments(case)]
+
+
+def model_join(case, results):
+    """refusal code / published geometry: constructor-level, from the first run; rows concatenated"""
+    first = results[0]
+    if not isinstance(first[0], list):          # [-2, code]
+        return first
+    rows = list(first[1])
+    for r in results[1:]:
+        rows += r[1]
+    return [first[0], rows]
+
+
 def build(cfg):
     from amaranth_soc import csr
     from amaranth_soc.memory import MemoryMap
@@ -272,7 +394,7 @@ def run_impl(case):
         raise RuntimeError("port widths differ from the published geometry")
     ins = [wb.cyc, wb.stb, wb.we, wb.adr, wb.sel, wb.dat_w, bus.r_data]
     outs = [wb.ack, wb.dat_r, bus.addr, bus.r_stb, bus.w_stb, bus.w_data]
-    rows = S.simulate(dut, ins, outs, case["stim"])
+    rows = S.simulate(dut, ins, outs, case["stim"], reset_at=_reset_cycles(case))
     return [geom, rows]
 
 
@@ -284,26 +406,39 @@ def from_model(res):
 # oracle: C10 restated over implementation observations only
 # ------------------------------------------------------------------------------------------------
 def transfers(case, g):
-    """Protocol reading of the stimulus alone: the bridge is idle after reset; a transfer starts at the
-    first cycle t0 with cyc & stb while idle; the initiator must hold cyc stb we adr sel dat_w on
-    [t0, t0+ratio]; the acknowledge cycle is t0+ratio+1 and the bridge is idle again at t0+ratio+2.
-    Returns (list of t0, first cycle from which the stimulus stops being protocol-abiding or None)."""
+    """Protocol reading of the stimulus (and of the cycles in which the reset is asserted) alone: the bridge
+    is idle after power-on and after every reset; a transfer starts at the first cycle t0 with cyc & stb while
+    idle; the initiator must hold cyc stb we adr sel dat_w on [t0, t0+ratio]; the acknowledge cycle is
+    t0+ratio+1 and the bridge is idle again at t0+ratio+2.  A reset ends whatever transfer is in progress
+    (the hold requirement ends with the reset cycle), and the reading starts afresh in the next cycle, also
+    when the stream had stopped being protocol-abiding before.
+    Returns (list of t0, first cycle from which some segment stops being protocol-abiding or None,
+    [(a, b, h)] per segment [a, b]: its cycles a <= t < h are protocol-abiding)."""
     r, ratio, wb_aw, wdw = g
-    stim = case["stim"]; T = len(stim)
-    t = 0; out = []
-    while t < T:
-        x = stim[t]
-        if x[0] and x[1]:
-            for i in range(1, ratio + 1):
-                if t + i >= T:
-                    break
-                if stim[t + i][:6] != x[:6]:
-                    return out, t
-            out.append(t)
-            t += ratio + 2
-        else:
-            t += 1
-    return out, None
+    stim = case["stim"]
+    out, spans, first = [], [], None
+    if not stim:
+        return out, None, spans
+    for (a, b) in _segments(case):
+        t = a; stop = None
+        while t <= b and stop is None:
+            x = stim[t]
+            if x[0] and x[1]:
+                for i in range(1, ratio + 1):
+                    if t + i > b:
+                        break
+                    if stim[t + i][:6] != x[:6]:
+                        stop = t
+                        break
+                if stop is None:
+                    out.append(t)
+                    t += ratio + 2
+            else:
+                t += 1
+        spans.append((a, b, b + 1 if stop is None else stop))
+        if stop is not None and first is None:
+            first = stop
+    return out, first, spans
 
 
 def oracle(case, obs):
@@ -340,35 +475,68 @@ def oracle(case, obs):
             out.append(("C10", t + 1, "acknowledge longer than one cycle"))
         if len(out) > 20:
             return out
-    # ---- B: protocol-abiding prefix ----
-    xf, stop = transfers(case, g)
-    horizon = T if stop is None else stop
+    # after power-on and after every reset the bridge is idle, whatever the stimulus: the cycle after is the
+    # first cycle of a transfer if cyc & stb (its access is granule 0), and no transfer, hence no acknowledge,
+    # can be complete before ratio+1 cycles have passed
+    for (a, b) in _segments(case):
+        since = "power-on" if a == 0 else f"the reset asserted in cycle {a - 1}"
+        if a < T:
+            x = stim[a]; ack, dat_r, addr, rs, ws, wd = rows[a]
+            if x[0] and x[1]:
+                s0 = x[4] & 1
+                if (rs, ws) != (s0 & (1 - x[2]), s0 & x[2]):
+                    out.append(("C10", a, f"first cycle after {since}, cyc=stb=1: CSR strobes r={rs} w={ws}, a transfer "
+                                          f"starts here and granule 0 requires r={s0 & (1 - x[2])} w={s0 & x[2]} "
+                                          f"(sel={x[4]:#x}, we={x[2]})"))
+                elif (rs or ws) and addr != (x[3] * ratio) % (1 << caw):
+                    out.append(("C10", a, f"first cycle after {since}: CSR address {addr:#x}, a transfer starts here and "
+                                          f"granule 0 is at adr*ratio = {(x[3] * ratio) % (1 << caw):#x}"))
+        for t in range(a, min(a + ratio + 1, b + 1, T)):
+            if rows[t][0]:
+                out.append(("C10", t, f"acknowledge {t - a} cycles after {since}: no transfer can be complete before "
+                                      f"ratio+1 = {ratio + 1} cycles"))
+        if len(out) > 20:
+            return out
+    # ---- B: protocol-abiding part of every segment (a segment = power-on or reset to the next reset) ----
+    xf, stop, spans = transfers(case, g)
+
+    def span_of(t):
+        for sp in spans:
+            if sp[0] <= t <= sp[1]:
+                return sp
     exp = {}            # cycle -> (ack, r_stb, w_stb) expected; default (0,0,0)
     for t0 in xf:
         x = stim[t0]
+        b = span_of(t0)[1]
         we, adr, sel, dat_w = x[2], x[3], x[4], x[5]
         for i in range(ratio):
             s = (sel >> i) & 1
-            exp[t0 + i] = (0, s & (1 - we), s & we, (adr * ratio + i) % (1 << caw), (dat_w >> (i * cdw)) & gm, i)
-        exp[t0 + ratio + 1] = (1, 0, 0, None, None, None)
-    for t in range(horizon):
-        ack, dat_r, addr, rs, ws, wd = rows[t]
-        e = exp.get(t, (0, 0, 0, None, None, None))
-        if ack != e[0]:
-            out.append(("C10", t, f"ack={ack}, required {e[0]} (transfers start at {near(xf, t)}, ratio {ratio})"))
-        if (rs, ws) != (e[1], e[2]):
-            out.append(("C10", t, f"CSR strobes r={rs} w={ws}, required r={e[1]} w={e[2]} "
-                                  f"(granule {e[5]} of the transfer at {near(xf, t)}, sel={stim[t][4]:#x}, we={stim[t][2]})"))
-        elif rs or ws:
-            if addr != e[3]:
-                out.append(("C10", t, f"CSR address {addr:#x}, required adr*ratio+granule = {e[3]:#x}"))
-            if ws and wd != e[4]:
-                out.append(("C10", t, f"CSR w_data {wd:#x}, required lane {e[5]} of dat_w = {e[4]:#x}"))
-        if len(out) > 20:
-            return out
+            if t0 + i <= b:
+                exp[t0 + i] = (0, s & (1 - we), s & we, (adr * ratio + i) % (1 << caw), (dat_w >> (i * cdw)) & gm, i)
+        if t0 + ratio + 1 <= b:
+            # the acknowledge is registered by the clock edge of cycle t0+ratio: not if the reset is asserted then
+            exp[t0 + ratio + 1] = (1, 0, 0, None, None, None)
+    for (a, b, h) in spans:
+        since = "" if a == 0 else f", reset asserted in cycle {a - 1}"
+        for t in range(a, min(h, T)):
+            ack, dat_r, addr, rs, ws, wd = rows[t]
+            e = exp.get(t, (0, 0, 0, None, None, None))
+            if ack != e[0]:
+                out.append(("C10", t, f"ack={ack}, required {e[0]} (transfers start at {near(xf, t)}, ratio {ratio}{since})"))
+            if (rs, ws) != (e[1], e[2]):
+                out.append(("C10", t, f"CSR strobes r={rs} w={ws}, required r={e[1]} w={e[2]} "
+                                      f"(granule {e[5]} of the transfer at {near(xf, t)}, sel={stim[t][4]:#x}, we={stim[t][2]}{since})"))
+            elif rs or ws:
+                if addr != e[3]:
+                    out.append(("C10", t, f"CSR address {addr:#x}, required adr*ratio+granule = {e[3]:#x}"))
+                if ws and wd != e[4]:
+                    out.append(("C10", t, f"CSR w_data {wd:#x}, required lane {e[5]} of dat_w = {e[4]:#x}"))
+            if len(out) > 20:
+                return out
     for t0 in xf:
         ta = t0 + ratio + 1
-        if ta >= horizon or ta >= T:
+        a, b, h = span_of(t0)
+        if ta > b or ta >= h or ta >= T:
             continue
         x = stim[t0]
         if x[2]:
@@ -397,8 +565,8 @@ def nontrivial(case, obs):
     g = geometry(case["cfg"])
     if g is None or not obs or obs[0] == -2:
         return False
-    xf, _ = transfers(case, g)
-    xf = [t for t in xf if t + g[1] + 1 < len(case["stim"])]
+    xf, _, spans = transfers(case, g)
+    xf = [t for t in xf if any(a <= t and t + g[1] + 1 <= b for (a, b, h) in spans)]   # acknowledged ones
     rd = any(case["stim"][t][4] and not case["stim"][t][2] for t in xf)
     wr = any(case["stim"][t][4] and case["stim"][t][2] for t in xf)
     return len(xf) >= 3 and rd and wr
@@ -407,7 +575,7 @@ def nontrivial(case, obs):
 def describe(case):
     cfg = case["cfg"]
     return {"engine": "bridge", "kind": case["kind"], "csr_addr_width": cfg["caw"], "csr_data_width": cfg["cdw"],
-            "data_width": cfg["dw"], "cycles": len(case["stim"]),
+            "data_width": cfg["dw"], "cycles": len(case["stim"]), "resets": case.get("resets", []),
             "first_cycles [cyc,stb,we,adr,sel,dat_w,r_data]": case["stim"][:12]}
 
 
@@ -419,7 +587,22 @@ def stats(case, obs):
     if g is None:
         return {"accepted_outside_domain": 1}
     d = {"ratio_%d" % g[1]: 1}
-    xf, stop = transfers(case, g)
+    xf, stop, spans = transfers(case, g)
+    rs = _reset_cycles(case)
+    if rs:
+        d["cases_with_resets"] = 1
+        d["resets"] = len(rs)
+        d["resets_inside_protocol_abiding_transfer"] = 0
+        d["resets_on_the_edge_that_would_acknowledge"] = 0
+        d["resets_in_the_acknowledge_cycle"] = 0
+        d["resets_request_held_through"] = 0
+        for (a, b, h) in spans[:-1]:
+            cut = [t for t in xf if a <= t <= b < t + g[1] + 1]
+            d["resets_inside_protocol_abiding_transfer"] += len(cut)
+            d["resets_on_the_edge_that_would_acknowledge"] += int(any(t + g[1] == b for t in cut))
+            d["resets_in_the_acknowledge_cycle"] += int(any(t + g[1] + 1 == b for t in xf))
+            x, y = case["stim"][b], case["stim"][b + 1]
+            d["resets_request_held_through"] += int(bool(x[0] and x[1]) and x[:6] == y[:6])
     d["transfers"] = len(xf)
     d["protocol_abiding_whole_trace"] = int(stop is None)
     d["reads"] = sum(1 for t in xf if not case["stim"][t][2])
@@ -433,8 +616,16 @@ def stats(case, obs):
     return d
 
 
+def _drop_prefix(case, cut):
+    c = dict(case); c["stim"] = case["stim"][cut:]
+    if case.get("resets"):
+        c["resets"] = [r - cut for r in case["resets"] if r >= cut]
+    return c
+
+
 def shrink(case, fails):
-    """Truncate the trace (binary search on the length), then drop leading idle/complete prefixes."""
+    """Truncate the trace (binary search on the length), then drop leading idle/complete prefixes (reset
+    cycles move with the trace), then the resets the failure does not need."""
     best = case
     lo, hi = 0, len(best["stim"])
     if hi == 0:
@@ -455,11 +646,18 @@ def shrink(case, fails):
         cut = n // 2
         done = True
         while cut >= 1:
-            c = dict(best); c["stim"] = best["stim"][cut:]
+            c = _drop_prefix(best, cut)
             if fails(c):
                 best = c; done = False
                 break
             cut //= 2
         if done:
             break
+    if best.get("resets"):
+        rs = _reset_cycles(best)
+        for r in list(rs):
+            c = dict(best); c["resets"] = [x for x in rs if x != r]
+            if fails(c):
+                rs = c["resets"]
+        best = dict(best); best["resets"] = rs
     return best
